@@ -38,7 +38,7 @@ def main():
             for k in ("family", "group"):
                 if meta.get("check_" + k):
                     cmd += ["--" + k, meta["check_" + k]]
-            env = dict(os.environ, VF_REPO=scratch, VF_COEXEC="none", VF_REPLAY_DIR=os.path.join(scratch, "replays"))
+            env = dict(os.environ, VF_REPO=scratch, VF_COEXEC="all" if meta.get("needs_coexec") else "none", VF_REPLAY_DIR=os.path.join(scratch, "replays"))
             r = subprocess.run(cmd, cwd=ROOT, stdout=subprocess.PIPE, stderr=subprocess.PIPE, env=env)
             out = r.stdout.decode()
             v = [l for l in out.splitlines() if l.startswith("VIOLATION")]
